@@ -586,6 +586,205 @@ theorem snap_at_lock {j0 pos : Nat} {s : State} {sg : SGhost} {fn : Nat} {js : L
   rw [sgStep_clk, hpc]
   simp only [if_true, and_self]
 
+/-! ### refinement: an uninterrupted tick of the clock thread is `World.tick` -/
+
+theorem clockRun_add (s : State) (a b : Nat) : clockRun s (a + b) = clockRun (clockRun s a) b := by
+  induction a generalizing s with
+  | zero => simp [clockRun]
+  | succ a ih => rw [Nat.succ_add]; simp only [clockRun]; exact ih _
+
+theorem forwardMsg_go_cons (j mfn : Nat) (txFreq : Option Int) (msg : Trxd.TxMsg) (w : World)
+    (acc : List Dgram) (k : Nat) (ks : List Nat) :
+    forwardMsg.go j mfn txFreq msg w acc (k :: ks) =
+      match fwdTo w j msg mfn txFreq k with
+      | .error e => .error e
+      | .ok none => forwardMsg.go j mfn txFreq msg w acc ks
+      | .ok (some (w', ds)) => forwardMsg.go j mfn txFreq msg w' (acc ++ ds) ks := by
+  simp only [forwardMsg.go, fwdTo]
+  repeat' split
+  all_goals first | rfl | (simp_all; done)
+
+/-- the recipient loop of `forward_msg`, run by the clock thread without interference -/
+theorem fwd_run (fn j mfn : Nat) (txFreq : Option Int) (msg : Trxd.TxMsg) (emit drop : List Trxd.TxMsg)
+    (js : List Nat) : ∀ (ks : List Nat) (w : World) (acc : List Dgram) (w' : World) (r out : List Dgram)
+      (st : Nat) (so : List Dgram),
+    forwardMsg.go j mfn txFreq msg w acc ks = .ok (w', r) →
+    ∃ D n, r = acc ++ D ∧
+      clockRun ⟨w, .fwd fn j msg mfn txFreq ks emit drop js, out, st, so⟩ n =
+        ⟨w', .loop fn j emit drop js, out ++ D, st, so⟩ := by
+  intro ks
+  induction ks with
+  | nil =>
+    intro w acc w' r out st so h
+    simp only [forwardMsg.go, Except.ok.injEq, Prod.mk.injEq] at h
+    obtain ⟨rfl, rfl⟩ := h
+    exact ⟨[], 1, by simp, by simp [clockRun, clockStep]⟩
+  | cons k ks ih =>
+    intro w acc w' r out st so h
+    rw [forwardMsg_go_cons] at h
+    cases hf : fwdTo w j msg mfn txFreq k with
+    | error e => rw [hf] at h; cases h
+    | ok v =>
+      rw [hf] at h
+      cases v with
+      | none =>
+        simp only [] at h
+        obtain ⟨D, n, hr, hn⟩ := ih w acc w' r out st so h
+        refine ⟨D, n + 1, hr, ?_⟩
+        rw [Nat.add_comm, clockRun_add]
+        simp only [clockRun, clockStep, hf]
+        exact hn
+      | some v =>
+        obtain ⟨w2, ds⟩ := v
+        simp only [] at h
+        obtain ⟨D, n, hr, hn⟩ := ih w2 (acc ++ ds) w' r (out ++ ds) st so h
+        refine ⟨ds ++ D, n + 1, by rw [hr, List.append_assoc], ?_⟩
+        rw [Nat.add_comm, clockRun_add]
+        simp only [clockRun, clockStep, hf]
+        rw [hn, List.append_assoc]
+
+/-- `forward_msg` for the emitted messages one after the other (`clckTick.go`) -/
+theorem emit_run (fn j : Nat) (drop : List Trxd.TxMsg) (js : List Nat) :
+    ∀ (emit : List Trxd.TxMsg) (w : World) (acc : List Dgram) (w' : World) (r out : List Dgram)
+      (st : Nat) (so : List Dgram),
+    clckTick.go j w acc emit = .ok (w', r) →
+    ∃ D n, r = acc ++ D ∧
+      clockRun ⟨w, .loop fn j emit drop js, out, st, so⟩ n = ⟨w', .loop fn j [] drop js, out ++ D, st, so⟩ := by
+  intro emit
+  induction emit with
+  | nil =>
+    intro w acc w' r out st so h
+    simp only [clckTick.go, Except.ok.injEq, Prod.mk.injEq] at h
+    obtain ⟨rfl, rfl⟩ := h
+    exact ⟨[], 0, by simp, by simp [clockRun]⟩
+  | cons m emit ih =>
+    intro w acc w' r out st so h
+    simp only [clckTick.go] at h
+    split at h
+    · cases h
+    next w2 ds hfw =>
+    obtain ⟨D, n, hr, hn⟩ := ih w2 (acc ++ ds) w' r (out ++ ds) st so h
+    -- unfold `forward_msg`
+    unfold forwardMsg at hfw
+    split at hfw
+    · cases hfw
+    next src hsrc =>
+    split at hfw
+    · cases hfw
+    next fnI hfnI =>
+    simp only [] at hfw
+    split at hfw
+    · cases hfw
+    next txFreq htx =>
+    obtain ⟨D1, n1, hr1, hn1⟩ := fwd_run fn j fnI.toNat txFreq _ emit drop js _ w [] w2 ds out st so hfw
+    simp only [List.nil_append] at hr1
+    subst hr1
+    refine ⟨ds ++ D, 1 + n1 + n, by rw [hr, List.append_assoc], ?_⟩
+    rw [clockRun_add, clockRun_add]
+    have h1 : clockRun ⟨w, .loop fn j (m :: emit) drop js, out, st, so⟩ 1 =
+        ⟨w, .fwd fn j (if src.rfMuted then { m with burst := none } else m) fnI.toNat txFreq
+          (List.range w.trxs.length) emit drop js, out, st, so⟩ := by
+      simp only [clockRun, clockStep, hsrc, hfnI, htx]
+    rw [h1, hn1, hn, List.append_assoc]
+
+/-- the stale warnings one after the other -/
+theorem drop_run (fn j : Nat) (js : List Nat) : ∀ (drop : List Trxd.TxMsg) (w : World) (out : List Dgram)
+      (st : Nat) (so : List Dgram),
+    clockRun ⟨w, .loop fn j [] drop js, out, st, so⟩ (drop.length + 1) =
+      ⟨w, .next fn js, out, st + drop.length, so⟩ := by
+  intro drop
+  induction drop with
+  | nil => intro w out st so; simp [clockRun, clockStep]
+  | cons d drop ih =>
+    intro w out st so
+    rw [List.length_cons, Nat.add_comm (drop.length + 1) 1, clockRun_add]
+    have h1 : clockRun ⟨w, .loop fn j [] (d :: drop) js, out, st, so⟩ 1 =
+        ⟨w, .loop fn j [] drop js, out, st + 1, so⟩ := rfl
+    rw [h1, ih]
+    congr 1
+    omega
+
+/-- one `clck_tick`, run by the clock thread without interference -/
+theorem clckTick_run {w w' : World} {j fn : Nat} {ds : List Dgram} {st' : Nat}
+    (h : clckTick w j fn = .ok (w', ds, st')) (js : List Nat) (out : List Dgram) (st : Nat) (so : List Dgram) :
+    ∃ n, clockRun ⟨w, .next fn (j :: js), out, st, so⟩ n = ⟨w', .next fn js, out ++ ds, st + st', so⟩ := by
+  unfold clckTick at h
+  split at h
+  · cases h
+  next trx htrx =>
+  split at h
+  next hrun =>
+    simp only [Except.ok.injEq, Prod.mk.injEq] at h
+    obtain ⟨rfl, rfl, rfl⟩ := h
+    refine ⟨1, ?_⟩
+    simp [clockRun, clockStep, htrx, hrun]
+  next hrun =>
+    simp only [] at h
+    split at h
+    · cases h
+    next w2 ds2 hgo =>
+    simp only [Except.ok.injEq, Prod.mk.injEq] at h
+    obtain ⟨rfl, rfl, rfl⟩ := h
+    obtain ⟨D, n, hr, hn⟩ := emit_run fn j (trx.txQueue.filter (fun m => classify fn m == .stale)) js _ _ []
+      w2 ds2 out st so hgo
+    simp only [List.nil_append] at hr
+    subst hr
+    refine ⟨2 + n + ((trx.txQueue.filter (fun m => classify fn m == .stale)).length + 1), ?_⟩
+    rw [clockRun_add _ (2 + n), clockRun_add _ 2 n]
+    have h2 : clockRun ⟨w, .next fn (j :: js), out, st, so⟩ 2 =
+        ⟨setTrx w j (fun t => { t with txQueue := trx.txQueue.filter (fun m => classify fn m == .wait) }),
+         .loop fn j (trx.txQueue.filter (fun m => classify fn m == .emit))
+           (trx.txQueue.filter (fun m => classify fn m == .stale)) js, out, st, so⟩ := by
+      simp only [clockRun, clockStep, htrx, hrun, if_false]
+    rw [h2, hn, drop_run]
+
+/-- the `clck_handler` loop -/
+theorem tick_go_run (fn : Nat) (so : List Dgram) : ∀ (js : List Nat) (w : World) (acc : List Dgram) (st : Nat),
+    (tick.go fn w acc st js).exc = none →
+    ∃ n, clockRun ⟨w, .next fn js, acc, st, so⟩ n =
+      ⟨(tick.go fn w acc st js).world, .idle, (tick.go fn w acc st js).out, (tick.go fn w acc st js).stale, so⟩ := by
+  intro js
+  induction js with
+  | nil =>
+    intro w acc st _
+    exact ⟨1, by simp only [clockRun, clockStep, tick.go]⟩
+  | cons j js ih =>
+    intro w acc st hx
+    simp only [tick.go] at hx ⊢
+    split at hx
+    · cases hx
+    next w2 ds s2 hc =>
+    try simp only [hc]
+    obtain ⟨n1, h1⟩ := clckTick_run hc js acc st so
+    obtain ⟨n2, h2⟩ := ih w2 (acc ++ ds) (st + s2) hx
+    exact ⟨n1 + n2, by rw [clockRun_add, h1, h2]⟩
+
+/-- Refinement: a tick of the clock thread that is not interleaved with socket operations and that no
+exception leaves is exactly `World.tick` — same world, same datagrams, same number of stale
+reports. -/
+theorem tick_run {w : World} (hx : (tick w).exc = none) (so : List Dgram) :
+    ∃ n, clockRun ⟨w, .idle, [], 0, so⟩ n = ⟨(tick w).world, .idle, (tick w).out, (tick w).stale, so⟩ := by
+  cases hr : w.clkRunning with
+  | false =>
+    rw [tick_stopped hr]
+    exact ⟨0, rfl⟩
+  | true =>
+    cases hs : w.clkSrc with
+    | none =>
+      exfalso
+      unfold tick at hx
+      simp [hr, hs] at hx
+    | some fn =>
+      rw [tick_eq_go hr hs] at hx ⊢
+      obtain ⟨n, hn⟩ := tick_go_run fn so (List.range w.trxs.length) w (tickInds w fn) 0 hx
+      refine ⟨1 + n, ?_⟩
+      rw [clockRun_add]
+      have h1 : clockRun ⟨w, .idle, [], 0, so⟩ 1 =
+          ⟨w, .next fn (List.range w.trxs.length), tickInds w fn, 0, so⟩ := by
+        simp only [clockRun, clockStep, hr, hs, not_true_eq_false, if_false, List.nil_append]
+        rfl
+      rw [h1, hn]
+
 /-! ### concrete schedules for the non-vacuity examples of Props/C03 -/
 
 /-- the demo world with the clock thread between two ticks -/
